@@ -213,6 +213,10 @@ type zzC13Exec struct {
 
 	crashes []zzC13Crash // crash i is armed in epoch i+1
 	fired   []string     // descriptions of the crashes that fired
+	// downtime arm: down[i] blocks are mined between crash i+1 and the
+	// restart that follows it (the chain moves on while the node is down)
+	down       []int
+	downBlocks int // blocks actually mined with the node down
 
 	// write labels per epoch: labels[e][k] = where write k of epoch e+1 came from
 	labels   []map[int]string
@@ -233,6 +237,7 @@ type zzC13Exec struct {
 	postBlocks        int
 	terminalAt        int // stimulus at which the channel was marked fully closed
 	markAttempts      int
+	closeStim         int // stimulus in which the close event was delivered
 	earlyMark         string
 	slackUsed         int
 	nurseCrashes      int // crashes that landed in a nursery-store write
@@ -410,6 +415,54 @@ func zzC13Main(r *simcore.Run, t *testing.T) {
 		if len(ex.fired) > 1 {
 			completed++
 			r.Count("fault_second_crash")
+		}
+	}
+	// ---- downtime arm: one crash, then the chain moves on for a few blocks
+	// before the node comes back. (Draws appended after everything older
+	// replay files recorded.) The counterparty's claims, confirmations of what
+	// the node had broadcast, preimages and the breach remedy keep their
+	// absolute heights, so the terminal outcome may legitimately differ from
+	// the uninterrupted run: these executions are judged by the conditions
+	// that hold whatever the chain did meanwhile (judgeAfterDowntime).
+	nDown := 4
+	if r.Tier == "thorough" {
+		nDown = W
+		if nDown > 24 {
+			nDown = 24
+		}
+	}
+	for i := 0; i < nDown && r.Step(); i++ {
+		p := r.Draw(nPoints)
+		if len(nurseWrite) > 0 && i%2 == 0 {
+			for j := 0; j < nPoints; j++ {
+				if q := (p + j) % nPoints; nurseWrite[q/2+1] {
+					p = q
+					break
+				}
+			}
+		}
+		c := point(p)
+		// mostly short outages; one in four is longer than any CSV delay or
+		// confirmation lag of the script
+		d := 1 + r.Draw(4)
+		if r.Draw(4) == 0 {
+			d = 5 + r.Draw(12)
+		}
+		r.Kind(fmt.Sprintf("crashdown-%s+%d", c.String(), d))
+		ex := &zzC13Exec{r: r, t: t, sc: sc, ref: refOut, crashes: []zzC13Crash{c}, down: []int{d},
+			src: &zzC13Src{r: r, ops: sc.ops}}
+		r.Logf("=== downtime execution %s (%s), %d block(s) down", c, refOut.label(0, c.k), d)
+		ex.execute()
+		if len(ex.fired) > 0 {
+			completed++
+			if ex.downBlocks > 0 {
+				r.Count("fault_restart_after_downtime")
+				r.Add("fault_downtime_blocks", int64(ex.downBlocks))
+			} else {
+				r.Count("downtime_crash_before_close")
+			}
+		} else {
+			r.Count("crash_point_not_reached")
 		}
 	}
 	r.Add("crash_executions", int64(completed))
@@ -608,7 +661,8 @@ func (ex *zzC13Exec) runReplay() {
 	// execution that restarted gets a few more blocks than the reference
 	// needed before "never reaches the terminal state" is concluded.
 	if ex.ref.fully && ex.w.closeDelivered != "" {
-		for i := 0; i < 6 && !ex.terminal(); i++ {
+		// (after downtime: the outage's length on top, generously twice)
+		for i := 0; i < 6+2*ex.downBlocks && !ex.terminal(); i++ {
 			ex.slackUsed++
 			ex.src.cur = nil
 			ex.apply("block")
@@ -737,6 +791,7 @@ func (ex *zzC13Exec) apply(op string) {
 		w.closeHeight = w.height
 		w.nextStim("close event: " + kind + " commitment confirmed")
 		w.closeDelivered = kind
+		ex.closeStim = w.stim
 		ex.chain.closeConfirmed(kind, draw)
 		w.deliverClose(kind)
 		ex.pump()
@@ -1008,6 +1063,22 @@ func (ex *zzC13Exec) restart() {
 		}
 	}
 
+	// Downtime arm: the chain moves on while the node is down (only once a
+	// commitment has confirmed: before that nothing happens on chain and the
+	// question "does it still go on chain in time" is C12's).
+	if i := ex.restarts - 1; i < len(ex.down) && ex.down[i] > 0 && w.closeDelivered != "" {
+		if _, _, _, fully := w.closedInfo(); !fully {
+			for b := 0; b < ex.down[i]; b++ {
+				w.height++
+				w.clk.SetTime(w.clk.Now().Add(w.cfg.perBlock))
+				w.logf("block height=%d (node is down)", w.height)
+				ex.chain.advance(false)
+				ex.downBlocks++
+			}
+			r.State(fmt.Sprintf("down%d/%s", ex.down[i], w.closeDelivered))
+		}
+	}
+
 	w.nextStim(fmt.Sprintf("restart at height %d", w.height))
 	if ex.nurse != nil {
 		// server.go: utxoNursery.Start comes before chainArb.Start
@@ -1047,6 +1118,9 @@ func (ex *zzC13Exec) restart() {
 func (ex *zzC13Exec) where() string {
 	if len(ex.fired) == 0 {
 		return "uninterrupted execution"
+	}
+	if ex.downBlocks > 0 {
+		return fmt.Sprintf("crash %s, node down for %d block(s)", strings.Join(ex.fired, " ; then "), ex.downBlocks)
 	}
 	return "crash " + strings.Join(ex.fired, " ; then ")
 }
